@@ -30,7 +30,7 @@ end Leaves
 def vinfoOf (l : Leaves) (archOverridePath : Bytes) : VInfo :=
   { name := l.str b!"Name", arch := l.str b!"Arch", epoch := l.str b!"Epoch", version := l.str b!"Version",
     schema := l.str b!"VersionSchema", release := l.str b!"Release", prerelease := l.str b!"Prerelease",
-    metadata := l.str b!"VersionMetadata", archOverride := l.str archOverridePath }
+    metadata := l.str b!"VersionMetadata", archOverride := l.str archOverridePath, platform := l.str b!"Platform" }
 
 /-- template helper `join`: strings.Trim(strings.Join(strs, ", "), " ") -/
 def tJoin (items : List Bytes) : Bytes := trim space (joinSep b!", " items)
@@ -74,14 +74,12 @@ def defaultPriority (p : Bytes) : Bytes := if p = [] then b!"optional" else p
 /-- the fields of the deb control file, in template order -/
 def debFields (l : Leaves) (installedSizeKiB : Nat) : List Field :=
   let vi := vinfoOf l b!"Deb.Arch"
-  let arch := targetArch Generated.archMap_deb vi
-  let platform := l.str b!"Platform"
   let d := multilineParts (l.str b!"Description")
   [ { key := b!"Package", first := l.str b!"Name" },
     { key := b!"Version", first := debVersion true vi },
     { key := b!"Section", first := l.str b!"Section" },
     { key := b!"Priority", first := defaultPriority (l.str b!"Priority") },
-    { key := b!"Architecture", first := (if platform ≠ b!"linux" then platform ++ [minus] else []) ++ arch } ]
+    { key := b!"Architecture", first := debControlArch vi } ]
   ++ optField b!"License" (l.str b!"License")
   ++ optField b!"Maintainer" (debMaintainer (l.str b!"Maintainer"))
   ++ [ { key := b!"Installed-Size", first := natToDec installedSizeKiB } ]
